@@ -36,7 +36,7 @@ CLAIMS = {
   ref="DESIGN.md 5 C06"),
  'C08': dict(
   text="Deductive proof, sequential: _build_file raises RuntimeError with empty effect trace, no callback and no change to any existing object when its path is already claimed or finished in this build (or is the cache file); _subbuild likewise when the subbuild key is taken; claims are single map updates under the documented lock (lockset obligations on Cache); a True result of the replay functions implies the record is not setup-failed and its path is unclaimed; attempts are recorded on the caller's record, closed; subbuild keys are the hashable form of [name, args, kwargs] (key lemma of C18); a failed attempt is marked setup_failed exactly when no user function was called (only such records are retried by the next build), and leaves no claim in progress.",
-  note="Threads: the atomic-section (lockset) obligations are decided, plus ONE rely condition: Cache.start_subbuild / start_building_file may refuse although the caller's unlocked early check passed (another thread claimed the key in between); under it _subbuild keeps its exception clauses (a refusal is not recorded as a failure of the user function) and _build_file must hold the claim before it moves the target aside - the latter FAILS on the unchanged tree and is the open known finding of this property (replayed with one forced two-thread schedule). Other interleavings are not decided. All-or-nothing registration of a reused subtree (Cache.use_cached_operation) is a trusted contract with the bounded stand-in cache_forest.",
+  note="Threads: the atomic-section (lockset) obligations are decided, plus ONE rely condition: Cache.start_subbuild / start_building_file may refuse although the caller's unlocked early check passed (another thread claimed the key in between); under it _subbuild keeps its exception clauses (a refusal is not recorded as a failure of the user function) and _build_file must hold the claim before it moves the target aside - the latter FAILS on the unchanged tree and is the open known finding of this property (replayed with one forced two-thread schedule). Other interleavings are not decided. Registration of a reused subtree is verified (round 4): Cache.use_cached_operation returns only if no key of the subtree (relation in_subtree, defined through its prefix version) was claimed or registered, then every non-setup-failed record of the subtree is registered, entries of earlier calls are untouched, the only exceptional exit (RuntimeError) leaves the cache unchanged, and the check and the registration run under both locks (lockset obligations at the two helper calls).",
   ref="DESIGN.md 5 C08"),
  'C10': dict(
   text="Deductive proof over _build_file, _rebuild_file, _prepare_file_creation, _make_dirs, _make_room and build_file_with_comparison, on all paths including OSError from every mutating primitive: normal return implies the record is closed, not raised and registered, the user function was called once with fresh copies of the sanitized arguments; any Exception closes the record and marks it raised (KeyboardInterrupt passes through); a failing _make_dirs has attempted rmdir on every directory it created; the error-created directories returned by _set_created_dirs are exactly BuildDirs' error set; every Exception exit of _build_file/_rebuild_file gives the reservation of the target back (ghost bd_resv) and the function receives abspath of the given name.",
@@ -68,7 +68,7 @@ CLAIMS = {
   ref="DESIGN.md 5 C07"),
  'C01': dict(
   text="Deductive proof of the necessary conditions that carry cache transparency, function by function: a lookup hit is the old record of the same key, not raised, same function name, JSON-equal arguments, unchanged versions in the whole subtree, intact output; a True replay answer implies not setup-failed, path/key unclaimed, and leaves the file system untouched; the CreatedFiles overlay satisfies its representation invariant after every operation (directories = those with a live file below); reuse does not call the function, closes the record, re-reserves every recorded output (count NBF of non-raised build-file records in the subtree, also below raised ones) or releases everything on failure; commit removes only old outputs that are not virtually files and old/error directories; a recorded query is accepted by _is_simple_operation_cached only if executor.exec was called in that call and its outcome (ghost log of exec's contract) has the recorded exception class and a JSON-equal value.",
-  note="The end-to-end statement (incremental build equals from-scratch build for every program and history) is a simulation argument over arbitrary user callbacks: composition is informal and NOT machine-checked (a differential replay template, 360 two-build histories against from-scratch builds, is run only to confirm a failed obligation); Cache.use_cached_operation and BuildDirs are trusted contracts with bounded stand-ins.",
+  note="The end-to-end statement (incremental build equals from-scratch build for every program and history) is a simulation argument over arbitrary user callbacks: composition is informal and NOT machine-checked (a differential replay template, 360 two-build histories against from-scratch builds, is run only to confirm a failed obligation); BuildDirs' scan and reservation release are trusted contracts with bounded stand-ins (Cache.use_cached_operation / _assert_no_repeats / _use_cached_operation are verified since round 4).",
   ref="DESIGN.md 5 C01"),
 }
 NA_REASON = {
